@@ -5,7 +5,7 @@ CG = dict(units=["type.c"], mode="dfcc", enforce="gen_expr", rec=True, replace=[
 PLAIN = dict(units=["type.c"], mode="plain", cut=["error", "error_tok", "error_at", "warn_tok"], no_checks=["signed-overflow", "undefined-shift"], timeout=600)
 META = dict(
     level="proof",
-    claim="IEEE binary32/binary64 part of the property, bit-exact on CBMC's IEEE-754 semantics: every conversion between float/double and every integer type (and between the two formats) emitted by the real cast() yields the C11 6.3.1.4/6.3.1.5 value for every source value where it is defined; + - * / == != < <= unary minus and logical not emitted by the real gen_expr equal the IEEE operation for all operands including infinities, signed zeros and NaN operands of comparisons; truth tests treat NaN as true (C03 jobs with float/double conditions).",
+    claim="IEEE binary32/binary64 part of the property, bit-exact on CBMC's IEEE-754 semantics: every conversion between float/double and every integer type (and between the two formats) emitted by the real cast() yields the C11 6.3.1.4/6.3.1.5 value for every source value where it is defined; + - == != < <= unary minus and logical not emitted by the real gen_expr equal the IEEE operation (* and / are not run: multiplier/divider equivalence does not finish) for all operands including infinities, signed zeros and NaN operands of comparisons; truth tests treat NaN as true (C03 jobs with float/double conditions).",
     note="Trusted: CBMC's float model (round-to-nearest-even), ghost x86 machine SSE semantics (SDM). long double: on INTEGER-VALUED values (the ghost x87 registers hold integers or a NaN tag) every conversion row between long double and the integer types yields the value, and == != < <= ! are the IEEE relations incl. NaN operands. Not covered: long double fractions/rounding/arithmetic values and unsigned long results >= 2^63 (outside CBMC's model), NaN payload propagation, floating constants' decimal-to-binary rounding (libc strtold), floating constant folding.",
     functions=["codegen.c:cast", "codegen.c:gen_expr", "codegen.c:cmp_zero", "codegen.c:pushf", "codegen.c:popf", "codegen.c:getTypeId", "type.c:add_type", "type.c:get_common_type", "type.c:usual_arith_conv"],
     trusted_base=["CBMC 6.11 floating-point decision procedure", "spec/x86_ghost.h"],
@@ -32,7 +32,7 @@ def jobs(tier):
         # double-precision * and / are not run: equivalence of two 53-bit multipliers/dividers over separately named
         # operands does not finish (DESIGN.md, tool limits); single precision is run in the thorough tier
         for k in ("ND_ADD", "ND_SUB", "ND_MUL", "ND_DIV", "ND_EQ", "ND_NE", "ND_LT", "ND_LE", "ND_NEG", "ND_NOT"):
-            if ft == 12 and k in ("ND_MUL", "ND_DIV"):
+            if k in ("ND_MUL", "ND_DIV"):      # single precision * and / did not finish in 30 min in this revision either: not run
                 continue
             js.append(Job(name=f"fop-{k}-{TI[ft]}", src="../C01/fop.c", group="C02.2 SSE arithmetic and comparison", defs={"KIND": k, "FT": str(ft)},
                           tier="quick" if ((ft == 12 or k in ("ND_LT", "ND_EQ", "ND_ADD", "ND_NOT")) and k not in ("ND_MUL", "ND_DIV")) else "thorough",
